@@ -16,16 +16,19 @@ def check(v, wd, vhbin, gs, label, timeout=3000):
     json.dump(gs, open(cp, "w"))
     out = os.path.join(d, "events.txt")
     vlib.vh(vhbin, ["parse-events", cp], outfile=out, timeout=timeout)
-    ev, er = {}, {}
+    ev, er, tr = {}, {}, {}
     for line in open(out, errors="replace"):
         p = line.rstrip("\n").split("\t")
         if len(p) >= 4:
             ev[(p[0], int(p[1]), int(p[2]))] = [e for e in p[3].split(";") if e]
             er[(p[0], int(p[1]), int(p[2]))] = p[4] if len(p) > 4 else "?"
+            tr[(p[0], int(p[1]), int(p[2]))] = json.loads(p[5]) if len(p) > 5 else []
     ntr = 0
     for g in gs:
         for i, inp in enumerate(g["inputs"]):
             inp["ev"] = [ev.get((g["id"], k, i), ["missing"]) for k in g["ks"]]
+            inp["er"] = [er.get((g["id"], k, i), "?") for k in g["ks"]]
+            inp["tr"] = [tr.get((g["id"], k, i), [{"d": -1, "k": "missing", "v": ""}]) for k in g["ks"]]
             ntr += len(g["ks"])
     json.dump(gs, open(cp, "w"))
     res = vlib.run_tlc(wd, "ParserMachine", cfg="MC_Machine_trace.cfg", modules=["Meaning"], extra_files=[cp], timeout=timeout, heap="24g")
@@ -51,8 +54,23 @@ def check(v, wd, vhbin, gs, label, timeout=3000):
         v.notes["model_drift_error_selection"] = True
     if res.ok:
         v.validated(ntr)
-        v.notes["machine_" + label] = "%d hook traces accepted by ParserMachine (Refines, CtxDiscipline, CursorOrder, NoReentry, NoWriteBeforeCommit, Terminates hold)" % ntr
+        v.notes["machine_" + label] = "%d hook traces and node-level traces (participle.Trace) accepted by ParserMachine (Refines, CtxDiscipline, CursorOrder, NoReentry, NoWriteBeforeCommit, Terminates hold)" % ntr
         return ntr
+    if res.violation and "NodeTraceConforms" in res.violation:
+        m = re.findall(r"/\\ gi = (\d+)", res.out), re.findall(r"/\\ ii = (\d+)", res.out), re.findall(r"/\\ ki = (\d+)", res.out)
+        where = ""
+        try:
+            g = gs[int(m[0][-1]) - 1]
+            i, k = int(m[1][-1]) - 1, g["ks"][int(m[2][-1]) - 1]
+            rec = tr.get((g["id"], k, i), [])
+            mt = re.findall(r"/\\ trc = (<<.*?>>)\n/\\", res.out, re.S)
+            where = "grammar %s lookahead %d input %r; recorded %s; machine prefix %s" % (g["id"], k, g["inputs"][i]["s"], json.dumps(rec)[:400], (mt[-1] if mt else "")[-400:].replace("\n", " "))
+        except Exception:
+            pass
+        log("MODEL-DRIFT: the node-level trace printed by participle.Trace is not a behaviour of ParserMachine (%s)" % where)
+        v.notes["machine_" + label] = "node trace rejected: " + where
+        v.notes["model_drift_node_trace"] = True
+        return 0
     if res.violation and "TraceConforms" in res.violation:
         m = re.findall(r"/\\ gi = (\d+)", res.out), re.findall(r"/\\ ii = (\d+)", res.out), re.findall(r"/\\ ki = (\d+)", res.out)
         where = ""
